@@ -22,6 +22,7 @@ from __future__ import annotations
 import itertools
 import json
 import math
+import time
 from concurrent.futures import ThreadPoolExecutor
 from fractions import Fraction
 
@@ -91,10 +92,12 @@ def gen_case(rng, max_channels=6, max_raw_bits=10):
     npool = rng.randint(1, min(6, (1 << nf) - 1))
     pool = rng.sample(range(1, 1 << nf), npool)
     nch = rng.randint(1, max_channels)
+    profile = rng.choice(["small", "small", "mixed", "mixed", "big"])
+    kchoice = {"small": [1, 1, 1, 2, 2], "mixed": [1, 1, 2, 2, 2, 4, 4, 3, 5], "big": [2, 3, 4, 4, 5]}[profile]
     sizes = []
     left = max_raw_bits
     for _ in range(nch):
-        k = rng.choice([1, 1, 2, 2, 2, 4, 4, 3, 5])
+        k = rng.choice(kchoice)
         if k > left:
             k = left
         if k == 0:
@@ -105,7 +108,10 @@ def gen_case(rng, max_channels=6, max_raw_bits=10):
     flavour = rng.choice(["random", "dup", "ident", "subset", "mixed", "mixed"])
     for i, k in enumerate(sizes):
         f = flavour if flavour != "mixed" else rng.choice(["random", "dup", "ident", "subset"])
-        cols = [rng.choice(pool) for _ in range(k)]
+        if k <= len(pool) and rng.random() < 0.7:
+            cols = rng.sample(pool, k)                  # distinct columns inside the channel
+        else:
+            cols = [rng.choice(pool) for _ in range(k)]
         if f == "dup" and k >= 2:
             # duplicated columns inside the channel (possibly all equal, possibly one pair)
             if rng.random() < 0.5:
@@ -127,7 +133,7 @@ def gen_case(rng, max_channels=6, max_raw_bits=10):
                 cols = [rng.choice(big) for _ in range(k)]  # subset with possible repeats
         # zero columns sprinkled
         for j in range(k):
-            if rng.random() < 0.12:
+            if rng.random() < 0.08:
                 cols[j] = 0
         chan_cols.append(cols)
     if rng.random() < 0.04:
@@ -251,3 +257,359 @@ def brute_simplified(chans, sigs) -> dict[int, Fraction]:
 def dist_diff(a, b):
     keys = sorted(set(a) | set(b))
     return [(k, a.get(k, Fraction(0)), b.get(k, Fraction(0))) for k in keys if a.get(k, Fraction(0)) != b.get(k, Fraction(0))]
+
+
+# ----------------------------------------------------------------------------------------------
+# Coq model side
+# ----------------------------------------------------------------------------------------------
+
+def q_lit(n, m):
+    return f"({n}#{1 << m})"
+
+
+def case_term(case) -> str:
+    T = case["T"]
+    nf = len(T)
+    ncol = len(T[0])
+    cols = [sig_int([T[r][j] for r in range(nf)]) for j in range(ncol)]
+    tabs = "[" + "; ".join("[" + "; ".join(q_lit(n, m) for n in t) + "]" for t, m in zip(case["tables"], case["exps"])) + "]"
+    return f"show_sampler (sampler_init {MAX_BITS}%nat {tabs}%Q [{'; '.join(str(c) for c in cols)}]%N)"
+
+
+def parse_model(v):
+    """Coq value -> (channels, sigs) in the format of run_impl"""
+    chans_v, sigs_v = v
+    chans = []
+    for pv, cv in chans_v:
+        chans.append((tuple(Fraction(int(n), int(d)) for n, d in pv), tuple(int(c) for c in cv)))
+    return chans, [int(s) for s in sigs_v]
+
+
+def run_model(cases, tag="c07", shard=60, workers=8):
+    """evaluate the Coq model on every case (vm_compute), sharded over parallel coqc runs"""
+    shards = [cases[i:i + shard] for i in range(0, len(cases), shard)]
+
+    def one(k):
+        vals = cq.eval_terms(f"{tag}_{k}", IMPORTS, [case_term(c) for c in shards[k]], timeout=900)
+        return [parse_model(v) for v in vals]
+
+    out = []
+    with ThreadPoolExecutor(max_workers=workers) as ex:
+        for res in ex.map(one, range(len(shards))):
+            out += res
+    return out
+
+
+def outcome_term(case, outcomes) -> str:
+    """Coq term: the rows _sample_channels must produce for the given categorical samples (model's own channels)"""
+    base = case_term(case)[len("show_sampler ("):-1]
+    os_ = "[" + "; ".join("[" + "; ".join(f"{i}%nat" for i in o) + "]" for o in outcomes) + "]"
+    return f"let r := {base} in map (sample_row (snd r) (fst r)) {os_}"
+
+
+# ----------------------------------------------------------------------------------------------
+# the real _sample_channels with jax.random.categorical replaced by preset indices
+# ----------------------------------------------------------------------------------------------
+
+def forced_rows(sampler, outcomes):
+    import jax
+    import jax.numpy as jnp
+    import tsim.noise.channels as C
+    nch = len(sampler.channels)
+    presets = [jnp.array([o[k] for o in outcomes], dtype=jnp.int32) for k in range(nch)]
+    calls = []
+    orig = jax.random.categorical
+
+    def fake(key, logits, axis=-1, shape=None, **kw):
+        calls.append(1)
+        return presets[len(calls) - 1]
+
+    jax.random.categorical = fake
+    try:
+        res = C._sample_channels(jax.random.key(0), sampler.channels, sampler.signature_matrix, len(outcomes))
+    finally:
+        jax.random.categorical = orig
+    return [sig_int(r) for r in np.asarray(res).tolist()], len(calls)
+
+
+def pick_outcomes(rng, chans, limit=48):
+    sizes = [len(p) for p, _ in chans]
+    total = 1
+    for s in sizes:
+        total *= s
+    if total <= limit:
+        return [tuple(o) for o in itertools.product(*[range(s) for s in sizes])]
+    outs = {tuple(s - 1 for s in sizes), tuple(0 for _ in sizes)}
+    while len(outs) < limit:
+        outs.add(tuple(rng.randrange(s) for s in sizes))
+    return sorted(outs)
+
+
+def expected_row(chans, sigs, o) -> int:
+    f = 0
+    for (_, cols), idx in zip(chans, o):
+        for b, c in enumerate(cols):
+            if (idx >> b) & 1:
+                f ^= sigs[c]
+    return f
+
+
+# ----------------------------------------------------------------------------------------------
+# fixed corner cases (run first)
+# ----------------------------------------------------------------------------------------------
+
+def T_from_cols(cols, nf):
+    """cols as ints with row 0 most significant"""
+    return [[(c >> (nf - 1 - r)) & 1 for c in cols] for r in range(nf)]
+
+
+CORPUS = [
+    # PAULI_CHANNEL_1 whose two bits share a signature, after a 2-bit channel containing that signature:
+    # the Coq witness of C07_expand_or_refuted (OR instead of XOR in expand_channel)
+    ("pauli1-dup-absorbed", {"tables": [[4, 2, 1, 1], [4, 1, 2, 1]], "exps": [3, 3], "T": T_from_cols([1, 2, 2, 2], 2)}),
+    # the same channel absorbed into a 3-bit channel with a duplicated column of its own
+    ("dup-into-dup", {"tables": [[8, 1, 1, 2, 1, 1, 1, 1], [1, 1, 1, 5]], "exps": [4, 3], "T": T_from_cols([1, 2, 2, 2, 2], 2)}),
+    # three equal columns inside one channel, absorbed into a 4-bit channel
+    ("triple-dup", {"tables": [[3, 1, 1, 1, 1, 1, 1, 1, 1, 1, 1, 1, 1, 0, 0, 1], [1, 1, 1, 1, 1, 1, 1, 1]], "exps": [4, 3],
+                    "T": T_from_cols([1, 2, 4, 7, 2, 2, 2], 3)}),
+    ("all-null", {"tables": [[1, 3], [1, 1, 1, 1]], "exps": [2, 2], "T": [[0, 0, 0], [0, 0, 0]]}),
+    ("docstring", {"tables": [[9, 1], [4, 1]], "exps": [0, 0], "T": [[1, 1]]}),  # replaced below (non-dyadic 0.1/0.2 not used)
+    ("null-inside-4bit", {"tables": [[1] * 16, [1, 0, 0, 1]], "exps": [4, 1], "T": T_from_cols([0, 3, 0, 1, 1, 3], 2)}),
+    ("subset-chain", {"tables": [[5, 3], [1, 3, 2, 2], [1, 1, 1, 1, 1, 1, 1, 1], [3, 1]], "exps": [3, 3, 3, 2],
+                      "T": T_from_cols([1, 2, 1, 4, 1, 2, 4], 3)}),
+    ("five-bit-single", {"tables": [list(range(1, 33))], "exps": [0], "T": T_from_cols([1, 2, 3, 0, 1], 2)}),
+    ("identical-three", {"tables": [[3, 1], [1, 3], [2, 2], [1, 1, 1, 1]], "exps": [2, 2, 2, 2], "T": T_from_cols([1, 1, 1, 1, 1], 1)}),
+    ("over-max-bits", {"tables": [[1] * 32, [3, 1], [1, 1, 1, 1]], "exps": [5, 2, 2],
+                       "T": T_from_cols([1, 2, 4, 8, 16, 1, 2, 16], 5)}),
+]
+
+
+def _fix_corpus():
+    out = []
+    for name, c in CORPUS:
+        c = dict(c)
+        if name == "docstring":
+            c = {"tables": [[7, 1], [3, 1]], "exps": [3, 2], "T": [[1, 1]]}
+        if name == "five-bit-single":
+            t = list(range(1, 33))
+            tot = sum(t)  # 528: not a power of two -> rescale to 1024 by padding the first entry
+            t[0] += 1024 - tot
+            c = {"tables": [t], "exps": [10], "T": c["T"]}
+        for t, m in zip(c["tables"], c["exps"]):
+            assert sum(t) == 1 << m, (name, sum(t), m)
+        out.append((name, c))
+    return out
+
+
+def case_key(case) -> str:
+    import hashlib
+    return hashlib.sha1(json.dumps(case, sort_keys=True).encode()).hexdigest()[:10]
+
+
+# ----------------------------------------------------------------------------------------------
+# the check
+# ----------------------------------------------------------------------------------------------
+
+def check_case_reference(ctx, name, case, impl):
+    """(2) brute-force exact pushforward of the ORIGINAL channels vs the implementation's simplified channels.
+    Returns True when equal."""
+    if isinstance(impl, Exception):
+        ctx.violation(f"raises-{name}", f"ChannelSampler raises {type(impl).__name__}: {impl} on a valid channel list",
+                      {"case": case, "error": repr(impl)})
+        return False
+    chans, sigs, _ = impl
+    want = brute_original(case)
+    got = brute_simplified(chans, sigs)
+    d = dist_diff(want, got)
+    if d:
+        v, a, b = d[0]
+        ctx.violation(f"pushforward-{name}",
+                      f"distribution of the reduced error parameters changed by ChannelSampler's simplification: P(f={v:b}) is {b} "
+                      f"after simplification, {a} for the original channels ({len(d)} outcomes differ); simplified col ids "
+                      f"{[list(c) for _, c in chans]}",
+                      {"case": case, "simplified_channels": [[[str(x) for x in p], list(c)] for p, c in chans],
+                       "signature_rows": sigs, "first_difference": {"f": v, "original": str(a), "simplified": str(b)}})
+        return False
+    for (p, cols) in chans:
+        if len(p) != 1 << len(cols):
+            ctx.violation(f"shape-{name}", f"simplified channel has {len(p)} entries for {len(cols)} column ids", {"case": case})
+            return False
+    return True
+
+
+def run(ctx: Ctx) -> int:
+    model_ok = standard_model_phase(ctx, TRANSLATORS, COQ_FILES, "Props.C07", "Props/C07.v")
+    ctx.trusted += [
+        "hand model Model/Channels.v of tsim/noise/channels.py (fixed behaviour: XOR in expand_channel), tied by exact "
+        "comparison of ChannelSampler(...).channels / .signature_matrix with the model's vm_compute output on every generated case",
+        "numpy reshape(order='F')/transpose/sum/argsort(stable)/unique(axis=1) are modelled as index remappings; validated by the same comparison",
+        "float64 arithmetic is exact on the generated dyadic probabilities (denominators <= 2^36); rounding on general floats is not covered",
+        "jax.random.categorical(logits=log p) draws index i with probability p_i, independent per subkey (checked statistically only)",
+    ]
+    try:
+        from tsim.noise.channels import ChannelSampler  # noqa: F401
+    except Exception as e:
+        ctx.violation("import-failure", f"tsim.noise.channels cannot be imported: {e!r}", {"error": repr(e)}, no_failing_input=True)
+        return ctx.finish("n/a")
+
+    rng = ctx.rng
+    quick = ctx.quick
+    n_coq = 420 if quick else 6000
+    n_ref = 2000 if quick else 40000
+    n_forced = 150 if quick else 1500
+    n_sample = 10 if quick else 60
+    model_usable = not any(("Model/Channels" in b or "Base/Dist" in b) for b in ctx.broken)
+
+    named = _fix_corpus()
+    cases = [c for _, c in named]
+    names = [n for n, _ in named]
+    while len(cases) < n_ref:
+        c = gen_case(rng)
+        cases.append(c)
+        names.append("case-" + case_key(c))
+
+    # ---- implementation on every case + (2) brute-force reference --------------------------------
+    impls = []
+    n_bad = 0
+    for name, case in zip(names, cases):
+        try:
+            impl = run_impl(case)
+        except Exception as e:  # noqa
+            impl = e
+        impls.append(impl)
+        feats, sizes = case_features(case)
+        ctx.count(name, nontrivial=bool(feats), bucket="channels=%d" % len(sizes))
+        for f in feats:
+            ctx.hist["feature:" + f] = ctx.hist.get("feature:" + f, 0) + 1
+        ctx.hist["raw-bits=%d" % sum(sizes)] = ctx.hist.get("raw-bits=%d" % sum(sizes), 0) + 1
+        if n_bad < 5 and not check_case_reference(ctx, name, case, impl):
+            n_bad += 1
+    for name, case, impl in list(zip(names, cases, impls))[:3]:
+        if not isinstance(impl, Exception):
+            ctx.sample({"case": case, "impl_col_ids": [list(c) for _, c in impl[0]], "signature_rows": impl[1]})
+    ctx.cov["reference_cases"] = len(cases)
+    ctx.log(f"reference phase done: {len(cases)} cases, t={time.time() - ctx.t0:.1f}s")
+
+    # ---- (1) Coq model vs implementation, exact, in order -------------------------------------------
+    if model_usable:
+        sub = list(range(min(n_coq, len(cases))))
+        try:
+            mv = run_model([cases[i] for i in sub], tag="c07")
+        except Exception as e:  # noqa
+            ctx.broken.append(f"coq-eval: {str(e)[-600:]}")
+            mv = []
+        n_diff = 0
+        for i, m in zip(sub, mv):
+            impl = impls[i]
+            if isinstance(impl, Exception):
+                ctx.broken.append(f"correspondence:{names[i]}: implementation raises {impl!r}, model returns a value")
+                n_diff += 1
+            elif (impl[0], impl[1]) != m:
+                n_diff += 1
+                if n_diff <= 3:
+                    ctx.broken.append(f"correspondence:{names[i]}: model channels {[(list(map(str, p)), list(c)) for p, c in m[0]]} sigs {m[1]} "
+                                      f"!= implementation {[(list(map(str, p)), list(c)) for p, c in impl[0]]} sigs {impl[1]} on {json.dumps(cases[i])}")
+        ctx.cov["model_cases_compared"] = len(mv)
+        ctx.cov["model_cases_different"] = n_diff
+        ctx.log(f"model correspondence done: {len(mv)} cases, {n_diff} different, t={time.time() - ctx.t0:.1f}s")
+
+    # ---- (3) bit extraction of the real _sample_channels on preset categorical samples -----------------
+    forced_idx = [i for i in range(len(cases)) if not isinstance(impls[i], Exception)][:n_forced]
+    forced_out = {}
+    n_forced_bad = 0
+    for i in forced_idx:
+        chans, sigs, s = impls[i]
+        outs = pick_outcomes(rng, chans)
+        try:
+            rows, ncalls = forced_rows(s, outs)
+        except Exception as e:  # noqa
+            ctx.violation(f"sample-raises-{names[i]}", f"_sample_channels raises {e!r}", {"case": cases[i]})
+            continue
+        forced_out[i] = (outs, rows)
+        want = [expected_row(chans, sigs, o) for o in outs]
+        ctx.count(("forced", names[i]), nontrivial=len(chans) > 0, bucket="forced-rows", n=1)
+        if (rows != want or ncalls != len(chans)) and n_forced_bad < 3:
+            n_forced_bad += 1
+            k = next((k for k in range(len(outs)) if rows[k] != want[k]), 0)
+            ctx.violation(f"bit-extraction-{names[i]}",
+                          f"_sample_channels maps categorical samples {list(outs[k])} of channels with col ids {[list(c) for _, c in chans]} to "
+                          f"f={rows[k]:b}, the XOR of the selected signature rows is {want[k]:b}",
+                          {"case": cases[i], "outcome": list(outs[k]), "impl_row": rows[k], "expected_row": want[k]})
+    if model_usable and forced_out:
+        sel = [i for i in forced_idx if i in forced_out and i < n_coq][: (60 if quick else 400)]
+        try:
+            vals = cq.eval_terms("c07_rows", IMPORTS, [outcome_term(cases[i], forced_out[i][0]) for i in sel], timeout=900)
+            for i, v in zip(sel, vals):
+                if [int(x) for x in v] != forced_out[i][1]:
+                    ctx.broken.append(f"correspondence:sample_row:{names[i]}: model rows {v} != _sample_channels rows {forced_out[i][1]}")
+                    break
+            ctx.cov["sample_row_cases_compared"] = len(sel)
+        except Exception as e:  # noqa
+            ctx.broken.append(f"coq-eval(sample_row): {str(e)[-400:]}")
+
+    ctx.log(f"forced bit-extraction done: {len(forced_out)} cases, t={time.time() - ctx.t0:.1f}s")
+
+    # ---- (4) secondary: sampling frequencies at fixed seed, 6 sigma (not deciding) ----------------------
+    outliers = []
+    n_s = 20000
+    done = 0
+    for i in range(len(cases)):
+        if done >= n_sample:
+            break
+        if isinstance(impls[i], Exception):
+            continue
+        want = brute_original(cases[i])
+        if len(want) < 2:
+            continue
+        done += 1
+        _, _, s = impls[i]
+        smp = np.asarray(s.sample(n_s))
+        vals, cnts = np.unique(np.array([sig_int(r) for r in smp.tolist()]), return_counts=True)
+        freq = {int(v): int(c) / n_s for v, c in zip(vals, cnts)}
+        for v in set(want) | set(freq):
+            p = float(want.get(v, 0))
+            if abs(freq.get(v, 0.0) - p) > 6 * math.sqrt(max(p * (1 - p), 1e-12) / n_s) + 2.0 / n_s:
+                outliers.append({"case": names[i], "f": v, "freq": freq.get(v, 0.0), "p": p})
+    ctx.cov["sampling_cases"] = done
+    ctx.cov["sampling_6sigma_outliers"] = outliers[:5]
+    if outliers:
+        ctx.log("secondary sampling test: 6-sigma outliers (not deciding):", outliers[:3])
+
+    if ctx.broken and not ctx.violations:
+        report_broken_without_input(ctx)
+    return ctx.finish(
+        rule="case = list of <=6 dyadic probability tables (1/2/3/4/5-bit, denominators 2^1..2^6, sparse/point-mass/full support) and "
+             "a GF(2) matrix with <=5 rows, <=10 columns drawn from one PRNG (VERIF_SEED); flavours: random columns from a small pool, "
+             "duplicated columns inside a channel, identical column tuples across channels (also permuted), subsets of an earlier "
+             "channel's columns (with repeats), zero columns, all-null; plus 10 fixed corner cases. non-trivial = the case has a zero "
+             "column, a duplicated column inside a channel, identical sets, a strict subset or a 3/5-bit table.",
+        explanation="Props/C07.v: C07_simplify, C07_sampler and per-pass theorems over the hand model; correspondence (1) exact channel "
+                    "lists vs Coq vm_compute, (2) brute-force pushforward of original vs simplified, (3) forced categorical samples through "
+                    "_sample_channels, (4) sampling frequencies (secondary). See DESIGN.md 4.C07",
+        assumptions=["tables have 2^k entries and sum to one; float64 exact on dyadic inputs",
+                     "jax.random.categorical / key splitting idealised as independent exact categorical draws"],
+    )
+
+
+def replay(ctx: Ctx, obj) -> int:
+    r = obj.get("replay") or {}
+    case = r.get("case")
+    if not case:
+        print(json.dumps(obj)[:2000])
+        return 1
+    print(json.dumps(case))
+    try:
+        chans, sigs, s = run_impl(case)
+    except Exception as e:  # noqa
+        print("implementation raises:", repr(e))
+        return 1
+    d = dist_diff(brute_original(case), brute_simplified(chans, sigs))
+    print("simplified col ids:", [list(c) for _, c in chans], "signature rows:", sigs)
+    print("differences (f, original, simplified):", [(v, str(a), str(b)) for v, a, b in d[:8]])
+    bad = bool(d)
+    if "outcome" in r:
+        rows, _ = forced_rows(s, [tuple(r["outcome"])])
+        want = expected_row(chans, sigs, tuple(r["outcome"]))
+        print("forced outcome", r["outcome"], "->", rows[0], "expected", want)
+        bad = bad or rows[0] != want
+    return 1 if bad else 0
